@@ -98,8 +98,28 @@ def gen_term(src, vars_, cfg, depth=0):
     return mklist(items)
 
 
+def _inst_body(src, t, vars_, cfg, depth=0):
+    if t[0] == 'v':
+        if vars_ and src.n(3) != 2:
+            return src.pick(vars_)
+        return gen_term(src, vars_, cfg, max(depth, cfg.max_term_depth - 1))
+    if t[0] == 'f':
+        if vars_ and src.rare(1, 10):
+            return src.pick(vars_)
+        return ('f', t[1], tuple(_inst_body(src, a, vars_, cfg, depth + 1) for a in t[2]))
+    return t
+
+
 def gen_callable(src, vars_, preds, cfg):
     """a goal TERM for one of the predicates (or an undefined one)"""
+    heads = getattr(src, 'heads', None)
+    if heads and src.n(2) == 1:
+        # derived from a clause head of the program: each variable occurrence replaced independently, so the
+        # goal (nearly) matches that clause
+        h = src.pick(heads)
+        if h[0] == 'a':
+            return h
+        return ('f', h[1], tuple(_inst_body(src, a, vars_, cfg) for a in h[2]))
     if cfg.undefined_calls and src.rare(1, 20):
         name, n = src.pick([('undef', 1), ('undef', 0), ('p', 4), ('zz', 2)])
     else:
@@ -116,7 +136,20 @@ def gen_goal(src, vars_, preds, cfg):
     if cfg.eq_goals and k == 17:
         return ('call', ('f', '\\=', (gen_term(src, vars_, cfg), gen_term(src, vars_, cfg))))
     if cfg.meta and k in (12, 13, 14, 15):
-        return ('call', gen_meta(src, vars_, preds, cfg))
+        m = gen_meta(src, vars_, preds, cfg)
+        if src.n(3) == 2:
+            # the goal arrives in a variable bound at run time (possibly through a chain): G = goal, call(G)
+            src.gv = getattr(src, 'gv', 0) + 1
+            g = ('v', 'G%d' % src.gv)
+            idx = 1 if m[1] == 'findall' else 0
+            inner = m[2][idx]
+            m2 = ('f', m[1], m[2][:idx] + (g,) + m[2][idx + 1:])
+            if src.n(3) == 2:
+                src.gv += 1
+                g2 = ('v', 'G%d' % src.gv)
+                return (',', ('call', ('f', '=', (g2, g))), (',', ('call', ('f', '=', (g2, inner))), ('call', m2)))
+            return (',', ('call', ('f', '=', (g, inner))), ('call', m2))
+        return ('call', m)
     if cfg.db and k in (9, 10, 11):
         return ('call', gen_dbgoal(src, vars_, preds, cfg))
     return ('call', gen_callable(src, vars_, preds, cfg))
@@ -287,10 +320,13 @@ def gen_program(src, cfg):
                 libs.append(nm)
     clauses = []
     ncl = cfg.min_clauses + src.n(cfg.max_clauses - cfg.min_clauses + 1)
+    protos = []
     for _ in range(ncl):
         name, n = src.pick(preds)
         vars_ = [('v', i) for i in range(src.n(5))]
-        head = gen_head(src, name, n, vars_, cfg)
+        protos.append((vars_, gen_head(src, name, n, vars_, cfg)))
+    src.heads = [h for _, h in protos]
+    for vars_, head in protos:
         if src.n(2) == 0:
             body = ('true',)
         else:
